@@ -122,30 +122,58 @@ def _hook_tids(h):
     return hook
 
 
-def classify_open(h, sc, facts, k, task, end_state, aborted_act=None):
-    """why is task k still open after a non-error ending? -> discriminator string"""
-    nid = task['nid']
+def why_open(h, sc, facts, k, closer=None):
+    """causal discriminator: why can task k (open) sit below a parent that was completed / a process that ended?
+    closer = the client action record that caused the completion, if any"""
     chain = [k] + h.ancestors(k)
     nids = [h.create_by[c]['nid'] for c in chain if c in h.create_by]
-    if any(n in facts['sub_nids'] for n in nids):
-        return facts['sub_nids'][[n for n in nids if n in facts['sub_nids']][0]] + '-substep'
-    if facts['has_jump']:
-        # an instance abandoned by a backward jump: the same node (or an ancestor's node) was instantiated again later
-        later = collections.Counter()
-        for c in h.creates:
-            if c['pid'] == k[0]:
-                later[c['nid']] += 1
-        if any(later[n] > 1 for n in nids):
+    sub = [n for n in nids if n in facts['sub_nids']]
+    if sub:
+        return facts['sub_nids'][sub[0]] + '-substep'
+    # created by a push action: acts pushed into a step hang off the step but later chained acts do not count
+    c = h.create_by.get(k)
+    for a in h.actions:
+        if a['action'] == 'push' and a['ok'] and c and a['call'] < c['seq'] < a['seq']:
+            return 'pushed-act'
+    # the earliest closure of an ancestor over this (still open) task is the root cause
+    first = None
+    for anc in chain[1:]:
+        for e in h.states:
+            if (e['pid'], e['tid']) == anc and e['new'] in TERM and e['via'] == 'set':
+                if first is None or e['seq'] < first[0]:
+                    first = (e['seq'], anc)
+                break
+    if first is not None:
+        closer = closing_action(h, first[0])
+    if closer is not None and closer.get('action') != 'push':
+        tgt = (closer['pid'], closer['tid'])
+        if tgt in chain[1:]:
+            return 'client-closed-composite'          # the client's action closed an act that still had open children
+        if closer.get('action') == 'skip':
+            return 'skip-propagation'                 # a skipped act skips its composite parents although other children are open
+    insts = collections.Counter(cc['nid'] for cc in h.creates if cc['pid'] == k[0])
+    if any(insts[n] > 1 for n in nids):
+        if any(a['ok'] and a['action'] in ('back', 'cancel') for a in h.actions):
+            return 'abandoned-by-back'
+        if facts['has_jump']:
             return 'jump-abandoned'
-    if end_state == 'aborted' and aborted_act is not None:
-        # abort walks the aborted act's ancestors and their direct children only
-        anc = set(h.ancestors(aborted_act)) | {aborted_act}
-        if k not in anc and h.parent(k) not in anc:
-            return 'abort-unreached'
-        if k not in anc:
-            return 'abort-direct-child'
-        return 'abort-ancestor'
+    # a later act of a step: chained acts have prev = the previous act, so the step's own child count never sees them
+    kind, node = facts['nodes'].get(nids[0], (None, {}))
+    par = h.parent(k)
+    if par and par in h.create_by:
+        pk, pn = facts['nodes'].get(h.create_by[par]['nid'], (None, {}))
+        if pk == 'step' and pn.get('acts') and pn.get('branches'):
+            return 'mixed-step'
+    for anc in chain[1:]:
+        ak, an = facts['nodes'].get(h.create_by[anc]['nid'], (None, {})) if anc in h.create_by else (None, {})
+        if ak == 'step' and an.get('acts') and an.get('branches'):
+            return 'mixed-step'
     return 'other'
+
+
+def closing_action(h, seq):
+    c = [a for a in h.actions if a['call'] < seq < a['seq']]
+    return c[0] if len(c) == 1 else None
 
 
 def mon_c03(h, sc, obs):
@@ -171,9 +199,7 @@ def mon_c03(h, sc, obs):
                     if s_ not in TERM and d not in hook:
                         dn = h.create_by[d]
                         why = cause_of(h, e['seq'])
-                        disc = f"{e['kind']}-over-{dn['kind']}:{s_}:by-{why}:{h.race_tag(e['pid'])}"
-                        if dn['nid'] in facts['sub_nids']:
-                            disc += ':' + facts['sub_nids'][dn['nid']] + '-substep'
+                        disc = f"{e['kind']}-over-{dn['kind']}:{why_open(h, sc, facts, d, closing_action(h, e['seq']))}:by-{why if why == 'engine' else 'client'}:{h.race_tag(e['pid'])}"
                         out.append(V('C03', 'completed-with-open-descendant', disc,
                                      f"{e['kind']} {e['nid']} set completed while {dn['kind']} {dn['nid']} ({d[1]}) is {s_}; cause {why}", seq=e['seq']))
     # (b) proc state == root state at every quiescent point, in memory and in the proc row
@@ -185,10 +211,10 @@ def mon_c03(h, sc, obs):
                 continue
             obs['c03.proc-root-compares'] += 1
             if root[0]['state'] != p['state']:
-                out.append(V('C03', 'proc-state-differs-from-root', f"{p['state']}!={root[0]['state']}", f"pid {p['pid']}: process {p['state']} root {root[0]['state']}", seq=seq))
+                out.append(V('C03', 'proc-state-differs-from-root', f"{p['state']}!={root[0]['state']}:{h.race_tag(p['pid'])}", f"pid {p['pid']}: process {p['state']} root {root[0]['state']}", seq=seq))
             r = rows.get(p['pid'])
             if r is not None and r.get('state') != root[0]['state']:
-                out.append(V('C03', 'proc-row-differs-from-root', f"{r.get('state')}!={root[0]['state']}", f"pid {p['pid']}: proc row {r.get('state')} root {root[0]['state']}", seq=seq))
+                out.append(V('C03', 'proc-row-differs-from-root', f"{r.get('state')}!={root[0]['state']}:{h.race_tag(p['pid'])}", f"pid {p['pid']}: proc row {r.get('state')} root {root[0]['state']}", seq=seq))
     # (c) one start event, one terminal event (complete xor error)
     chan0 = ((sc.get('channels') or [{'id': 'main'}])[0]).get('id', 'main')
     cbs = collections.defaultdict(list)
@@ -217,16 +243,15 @@ def mon_c03(h, sc, obs):
                 out.append(V('C03', 'terminal-event-kind', f"{term[0]['what']}:{term[0]['state']}", f"pid {pid}: {term[0]['what']} event reports state {term[0]['state']}"))
         # (d) nothing left open after a non-error ending
         if term and term[0]['state'] in NONERR_END and pid in procs:
-            aborted = None
-            if term[0]['state'] == 'aborted':
-                for e in h.states:
-                    if e['pid'] == pid and e['new'] == 'aborted' and e['kind'] == 'act':
-                        aborted = (pid, e['tid'])
-                        break
+            closer = None
+            for e in h.states:
+                if e['pid'] == pid and e['tid'] == '$' and e['new'] in TERM:
+                    closer = closing_action(h, e['seq'])
+                    break
             for k, t in final.items():
                 if k[0] == pid and t['state'] in OPEN and k not in hook:
-                    why = classify_open(h, sc, facts, k, t, term[0]['state'], aborted)
-                    out.append(V('C03', 'open-after-end', f"{term[0]['state']}:{t['kind']}:{t['state']}:{why}:{h.race_tag(pid)}",
+                    why = why_open(h, sc, facts, k, closer)
+                    out.append(V('C03', 'open-after-end', f"{term[0]['state']}:{t['kind']}:{why}:{h.race_tag(pid)}",
                                  f"pid {pid} ended {term[0]['state']} but {t['kind']} {t['nid']} ({k[1]}) is {t['state']} [{why}]"))
     return out
 
@@ -238,6 +263,28 @@ MAP = {'none': 'none', 'ready': 'created', 'pending': 'created', 'running': 'cre
 
 def mstate(s):
     return MAP.get(s, s)
+
+
+def nested_resume(h, k):
+    """was task k completed inside the synchronous resume of one of its pending (else / needs) child branches?
+    (the outer review then emits the completion a second time)"""
+    w = next((e['seq'] for e in h.states if (e['pid'], e['tid']) == k and e['new'] == 'completed'), None)
+    if w is None:
+        return False
+    spans = {}
+    for e in h.execs:
+        kk = (e['pid'], e['tid'])
+        if e['phase'] == 'begin':
+            spans.setdefault(kk, []).append([e['seq'], 1 << 62])
+        elif spans.get(kk):
+            spans[kk][-1][1] = e['seq']
+    for kk, l in spans.items():
+        if kk[0] != k[0] or h.parent(kk) != k:
+            continue
+        resumed = any((e['pid'], e['tid']) == kk and e['old'] == 'pending' and e['new'] == 'running' for e in h.states)
+        if resumed and any(b < w < e_ for b, e_ in l):
+            return True
+    return False
 
 
 def mon_c08(h, sc, obs):
@@ -302,7 +349,11 @@ def mon_c08(h, sc, obs):
                 out.append(V('C08', 'caught-error-reported', f"{kind}", f"{kind} {nid}: error message emitted although the error was taken by its own catch; messages {states}"))
             else:
                 why = cause_of(h, term[1]['seq'])
-                out.append(V('C08', 'duplicate-terminal', f"{kind}:{'+'.join(states)}:by-{why}:{race}", f"{kind} {nid} ({k[1]}): terminal messages {states}"))
+                if race != 'plain':
+                    disc = f"{kind}:{race}"
+                else:
+                    disc = f"{kind}:{'+'.join(states)}:by-{why if why == 'engine' else 'client'}:{'nested-resume' if nested_resume(h, k) else 'direct'}:plain"
+                out.append(V('C08', 'duplicate-terminal', disc, f"{kind} {nid} ({k[1]}): terminal messages {states}; cause {why}"))
         if kind == 'branch':
             out.append(V('C08', 'branch-message', '', f"branch {nid} produced messages {[m['state'] for m in ms]}"))
         if created and term and created[0]['seq'] > term[0]['seq']:
